@@ -564,6 +564,11 @@ class Client:
         :param authmech: prefered authenticate mechanism
         :rtype: boolean
         """
+        # A new connection is not authenticated and knows nothing yet,
+        # whatever happened on a previous one.
+        self.authenticated = False
+        self.__read_buffer = b""
+        self.__capabilities = {}
         try:
             self.sock = socket.create_connection((self.srvaddr, self.srvport))
             self.sock.settimeout(Client.read_timeout)
